@@ -560,6 +560,31 @@ func c12(c *Ctx) {
 	}
 
 	// ---- R12.W ----------------------------------------------------------------------------------
+	// "all store/load sequences on one path": the loader works on the path it was given - the string handed to
+	// NewFromFile is the string every later stat / read / write uses (an expansion of $VAR, ~ or a cleaned-up form
+	// makes two loaders built from one string disagree, or puts the session somewhere else)
+	r.Rule("R12.P", "NewFromFile stores its argument itself in the loader's path field (no expansion, cleaning or joining in between)", 1)
+	if f := c.fn("R12.P", load.SessPkg, "", "NewFromFile"); f != nil && len(f.Params) == 1 {
+		n := 0
+		for _, b := range f.Blocks {
+			for _, in := range b.Instrs {
+				st, ok := in.(*ssa.Store)
+				if !ok {
+					continue
+				}
+				fa, ok := st.Addr.(*ssa.FieldAddr)
+				if !ok || !strings.HasSuffix(an.FieldName(fa.X.Type(), fa.Field), "genericFileSessionLoader.path") {
+					continue
+				}
+				n++
+				r.Check(st.Val == ssa.Value(f.Params[0]), "R12.P", "path:as-given", c.pos(st.Pos()), "the path field is set to "+st.Val.String())
+			}
+		}
+		if n == 0 {
+			r.Undecide("R12.P", "path:as-given", c.pos(f.Pos()), "no store to the loader's path field in NewFromFile")
+		}
+	}
+
 	r.Rule("R12.W", "Store replaces the whole file (WriteFile / Create / OpenFile with O_TRUNC / write-then-rename) and every exit that may report success passes the write: the last store wins byte for byte", 2)
 	if f := c.P.Func(load.SessPkg, "*genericFileSessionLoader", "Store"); f != nil {
 		verdict, detail := "", ""
